@@ -482,7 +482,10 @@ def shrink_case(prop, bins, case, reason):
         for _ in range(200):
             if time.time() > t_end:
                 break
-            cands = list(dict.fromkeys(prop.shrink(cur)))[:400]
+            try:
+                cands = list(dict.fromkeys(prop.shrink(cur)))[:400]
+            except Exception:
+                cands = []           # a shrinker that cannot handle this kind of case never hides the violation
             if not cands:
                 break
             impl, model, mon = eval_cases(prop, bins, cands)
